@@ -117,6 +117,82 @@ def handleSame (N : NumTy) (vt form a b qres rawres : String) : Option LineResul
   | none =>
     if forwardedForms.contains base then return ⟨[orc], keys, true⟩ else none
 
+/-- complex storage (C20): the model is the code *as it is* (conversion factor of a value = its norm);
+    the oracle is the property (both parts scaled by the real factor) -/
+def handleCplx (f : Fmt) (c : ConvCase) (im norm : Fl) (obs : List Fl) : LineResult :=
+  let S := cplxS f (fun _ => norm)
+  let fac := baseFactor (flS f) c.pows
+  let z : Fl × Fl := (c.v, im)
+  let mNew := toBase S c.coef c.consA fac z
+  let mGet := fromBase S c.coef c.consS fac z
+  let o (i : Nat) : Fl := obs.getD i Fl.nan
+  let models := [cmpFl f "cplx.new.re.model" mNew.1 (o 0), cmpFl f "cplx.new.im.model" mNew.2 (o 1),
+                 cmpFl f "cplx.get.re.model" mGet.1 (o 2), cmpFl f "cplx.get.im.model" mGet.2 (o 3)]
+  -- property: new(z) = ((re + c)·k, im·k): evaluated with the real conversion on each part
+  let wantRe := toBase (flS f) c.coef c.consA fac c.v
+  let wantIm := toBase (flS f) c.coef (Fl.zero f true) fac im
+  let finite := c.v.isFinite && im.isFinite && wantRe.isFinite && wantIm.isFinite
+  let close (a b : Fl) : Bool :=
+    a.isFinite && b.isFinite && ratAbs (a.toRat - b.toRat) ≤ 8 * uro f * ratMax (ratAbs a.toRat) (ratAbs b.toRat)
+  let orc : Outcome :=
+    if !finite then .guard "non-finite"
+    else if close (o 0) wantRe && close (o 1) wantIm then .ok
+    else if Fl.toBits f (o 0) = Fl.toBits f mNew.1 && Fl.toBits f (o 1) = Fl.toBits f mNew.2 then
+      .prop "cplx.F5" "complex conversion replaces the value by its modulus (stored = K·|z| + 0i): real and imaginary parts are not both scaled"
+    else .prop "cplx.new.oracle" "complex conversion neither scales both parts nor matches the known modulus defect"
+  let rtOrc : Outcome :=
+    if !finite then .guard "non-finite"
+    else if close (o 4) c.v && (close (o 5) im || (im.isZero && (o 5).isZero)) then .ok
+    else if (o 5).isZero then .prop "cplx.F5" "complex construct-then-read returns |z| + 0i instead of z"
+    else .prop "cplx.rt.oracle" "complex construct-then-read does not return the input"
+  ⟨models ++ [orc, rtOrc], ["cplx", if im.isZero then "cplx:real" else "cplx:im≠0"], !im.isZero⟩
+
+/-- exact / integer storage conversion line (C08, C09) -/
+def handleConvx (N : NumTy) (isRat : Bool) (vt coef consA consS pows v newObs getObs rtObs : String) : Option LineResult := do
+  let S := N.S
+  let coef ← N.parseT coef
+  let consA ← N.parseT consA
+  let consS ← N.parseT consS
+  let ps ← (pows.splitOn ":").mapM N.parseT
+  let v ← N.parseV v
+  let f := baseFactor S ps
+  let keys := [s!"convx:{vt}", if S.ge coef f then "convx:to:ge" else "convx:to:lt"]
+  -- fixed-width types: every intermediate of the taken branches must be comfortably small
+  let cv := S.conv v
+  let s := S.add cv consA
+  let toOk := if S.ge coef f then N.tOk (S.div coef f) && N.tOk (S.mul s (S.div coef f))
+              else N.tOk (S.mul s coef) && N.tOk (S.div (S.mul s coef) f)
+  let fromOk := if S.lt coef f then N.tOk (S.div f coef) && N.tOk (S.mul cv (S.div f coef)) && N.tOk (S.sub (S.mul cv (S.div f coef)) consS)
+                else N.tOk (S.div coef f) && N.tOk (S.div cv (S.div coef f)) && N.tOk (S.sub (S.div cv (S.div coef f)) consS)
+  if !(N.tOk coef && N.tOk consA && N.tOk f && N.tOk cv && N.tOk s) then
+    return ⟨[.guard "fixed-width intermediate"], keys, false⟩
+  -- the error branch: Rust panics exactly when it divides by a zero ratio, and (unsigned factor
+  -- types) when a subtraction would go below zero; the model's total `/` and `-` must not hide that
+  let unsignedT := vt == "biguint" || vt == "u32" || vt == "u64"
+  let isZeroT (x : S.T) : Bool := !(S.lt x (S.sub x x)) && !(S.lt (S.sub x x) x)
+  let toPanics := isZeroT f
+  let fromScaled (w : S.T) : S.T := if S.lt coef f then S.mul w (S.div f coef) else S.div w (S.div coef f)
+  let fromPanics (w : S.T) : Bool :=
+    (if S.lt coef f then isZeroT coef else (isZeroT f || isZeroT coef)) || (unsignedT && S.lt (fromScaled w) consS)
+  let cmpS (tag : String) (m : S.V) (obs : String) (ok panics : Bool) : Outcome :=
+    if panics then (if obs == "PANIC" then .ok else .diff s!"{vt}.{tag}" s!"model=PANIC impl={obs}")
+    else if !ok then .guard "fixed-width intermediate"
+    else if !(N.vOk m) then .guard "result does not fit"
+    else if N.showV m == obs then .ok else .diff s!"{vt}.{tag}" s!"model={N.showV m} impl={obs}"
+  let mNew := toBase S coef consA f v
+  let mGet := fromBase S coef consS f v
+  let mRt := fromBase S coef consS f mNew
+  let rtOk := toOk && fromOk && N.tOk (S.conv mNew)
+  let rtPanics := toPanics || fromPanics (S.conv mNew)
+  -- oracle: for rational storage construct-then-read is the identity (exactly)
+  let rtOracle : Outcome :=
+    if !isRat || !rtOk || rtPanics then .ok
+    else if rtObs == N.showV v then .ok
+    else .prop s!"{vt}.rt.oracle" "construct-then-read in one unit is not the identity for rational storage"
+  return ⟨[cmpS "new.model" mNew newObs toOk toPanics, cmpS "get.model" mGet getObs fromOk (fromPanics cv),
+           cmpS "rt.model" mRt rtObs rtOk rtPanics, rtOracle],
+          keys, !(N.eqV v mNew)⟩
+
 def handleLine (line : String) : Option LineResult :=
   match line.splitOn " " with
   | ["conv", vt, _base, _module, _unit, coef, consA, consS, pows, v, newObs, getObs, rtObs] => do
@@ -174,6 +250,18 @@ def handleLine (line : String) : Option LineResult :=
     match numTy? vt with
     | some N => handleFrom N vt pair ul ur lp rp a obs
     | none => none
+  | ["convx", vt, _base, _module, _unit, coef, consA, consS, pows, v, newObs, getObs, rtObs] =>
+    match numTy? vt with
+    | some N => handleConvx N (vt == "bigrational" || vt == "rational64") vt coef consA consS pows v newObs getObs rtObs
+    | none => none
+  | ["skip", vt, _base, _module, _unit] => some ⟨[.guard "coefficient not representable"], [s!"skip:{vt}"], false⟩
+  | ["cplx", vt, _base, _module, _unit, coef, consA, consS, pows, re, im, norm, nre, nim, gre, gim, rre, rim] => do
+    let f ← fmtOf? (if vt == "complex64" then "f64" else "f32")
+    let c ← convCase? (if vt == "complex64" then "f64" else "f32") coef consA consS pows re
+    let im ← flOf? f im
+    let norm ← flOf? f norm
+    let obs ← [nre, nim, gre, gim, rre, rim].mapM (flOf? f)
+    return handleCplx f c im norm obs
   | ["b2", vt, form, _q, _u, a, b, qres, rawres] =>
     match numTy? vt with
     | some N => handleSame N vt form a b qres rawres
